@@ -339,19 +339,23 @@ class Body:
             if t['k'] != 'switch':
                 continue
             pl = op_place(t['discr'])
-            if pl is None or pl['p']:
+            v = None
+            hops = 0
+            while pl is not None and not pl['p'] and hops < 6:
+                # the discriminant, or the single-definition local it was copied from, is assigned a constant
+                ds = self.defs().get(pl['l'], [])
+                if len(ds) != 1 or ds[0][0] != 'stmt':
+                    break
+                rv = self.blocks[ds[0][1]]['stmts'][ds[0][2]]['rv']
+                if rv['k'] != 'use':
+                    break
+                if 'const' in rv['op']:
+                    v = rv['op']['const'].get('val')
+                    break
+                pl = op_place(rv['op'])
+                hops += 1
+            if v is None:
                 continue
-            ds = self.defs().get(pl['l'], [])
-            if len(ds) != 1:
-                continue
-            d = ds[0]
-            if d[0] != 'stmt':
-                continue
-            st = self.blocks[d[1]]['stmts'][d[2]]
-            rv = st['rv']
-            if rv['k'] != 'use' or 'const' not in rv['op'] or 'val' not in rv['op']['const']:
-                continue
-            v = rv['op']['const']['val']
             taken = None
             for (val, tgt) in t['targets']:
                 if val == v:
